@@ -85,6 +85,9 @@ FAM = {
     "underflow": [b"cverif_sink\nhit\n(S'A'\ntR00.", b"0."],
     "nomemo": [b"cverif_sink\nhit\n(S'A'\ntRg7\n.", b"h\x05."],
     "persid": [b"cverif_sink\nhit\n(S'A'\ntRPpid\n."],
+    # 8-bit strings of protocol <= 2 pickles: what the unpickler makes of them depends on the options the caller passes
+    # (encoding=, errors=): a checked load hands the caller's options on
+    "py2str": [b"U\x03abc.", b"(U\x02\xe9\xe8U\x01al.", b"}q\x00U\x01kU\x02\xc3\xa9s."],
     # rated like "sink" (a non-standard import and call) but the stock unpickler cannot resolve the global: an accepted load
     # that raises inside the unpickler; whatever state the loader keeps across calls has seen a load end by exception
     "loadfails": [b"cnot_a_real_module\nf\n)R.", b"\x80\x02cnot_a_real_module.sub\nThing\n)\x81."],
@@ -159,10 +162,12 @@ def run_case(c, idx, tmp):
     fam = FAM[c["fam"]]
     a = fam[idx % len(fam)]
     v = verdict_of(a)
+    # unpickling options of the caller (forwarded by every way of arming the check)
+    kw = [{}, {"encoding": "bytes"}, {"encoding": "latin-1", "errors": "strict", "fix_imports": True}][(idx // 3) % 3]
     try:
-        stock = dg(rc(STOCK_LOADS(a))) if v != 9 else ""
+        stock = dg(rc(STOCK_LOADS(a, **kw))) if v != 9 else ""
     except Exception:  # noqa: BLE001
-        stock = ""
+        stock = "stock-raises"
     src = a if c["kind"] == "bytes" else (Flip(a) if c["kind"] == "seekable" else NoSeek(a))
     CUR["stream"] = None if c["kind"] == "bytes" else src
     CUR["json"] = os.path.join(tmp, f"rep{idx}.json") if c["arm"] == "loader_json" else None
@@ -173,23 +178,23 @@ def run_case(c, idx, tmp):
     out, info, res = "returned", -1, None
     try:
         if c["arm"] == "loader":
-            res = fickling.load(src, max_acceptable_severity=ORDER[c["t"]])
+            res = fickling.load(src, max_acceptable_severity=ORDER[c["t"]], **kw)
         elif c["arm"] == "loader_json":
-            res = fickling.load(src, max_acceptable_severity=ORDER[c["t"]], json_output_path=CUR["json"])
+            res = fickling.load(src, max_acceptable_severity=ORDER[c["t"]], json_output_path=CUR["json"], **kw)
         elif c["arm"] == "hook":
             fickling.always_check_safety()
-            res = pickle.load(src)
+            res = pickle.load(src, **kw)
         elif c["arm"] == "hook_after_context":     # the global hook stays armed after a context was used on top of it
             fickling.always_check_safety()
             with fickling.check_safety():
                 pass
-            res = pickle.load(src)
+            res = pickle.load(src, **kw)
         elif c["arm"] == "context":
             with fickling.check_safety():
-                res = pickle.load(src)
+                res = pickle.load(src, **kw)
         else:
             with FicklingContextManager(max_acceptable_severity=ORDER[c["t"]]):
-                res = pickle.load(src)
+                res = pickle.load(src, **kw)
     except UnsafeFileError as e:
         out = "unsafe"
         name = e.info.get("severity") if isinstance(e.info, dict) else None
@@ -205,7 +210,7 @@ def run_case(c, idx, tmp):
     calls = [x for x in verif_sink.calls if x[0] == "hit"]
     return {"arm": c["arm"], "kind": c["kind"], "t": c["t"], "fam": c["fam"], "v": v, "out": out, "info": info,
             "resolved": len(RESOLVED) + sum(1 for x in verif_sink.calls if x[0].endswith("-imported")), "ranA": sum(1 for x in calls if x[1] == ("A",)), "ranB": sum(1 for x in calls if x[1] == ("B",)),
-            "eq_stock": bool(out == "returned" and dg(rc(res)) == stock), "hex": a.hex()[:120],
+            "eq_stock": bool(out == "returned" and dg(rc(res)) == stock), "kw": sorted(kw), "stock_raises": stock == "stock-raises", "hex": a.hex()[:120],
             "exc": locals().get("exc", "")}
 
 
